@@ -22,6 +22,13 @@ InSeq(x, s) == \E i \in DOMAIN s : s[i] = x
 RuleAccepts(p, n, k, v) == \/ AcceptedBy(Get(Rules(p, n), k, {}), v)
                            \/ AcceptedBy(Get(p.globalAttrs, k, {}), v)
 
+\* a value only the sanitiser itself writes
+SanitiserMade(a) ==
+  \/ a.k = "rel" /\ a.v \in DOMAIN F.lfields /\ SetOf(F.lfields[a.v]) \subseteq {"nofollow", "noreferrer", "noopener"}
+  \/ a.k = "target" /\ a.v = "_blank"
+  \/ a.k = "crossorigin" /\ a.v = "anonymous"
+  \/ a.k = "sandbox" /\ a.v = ""
+
 \* an emitted attribute is justified by an input attribute of the same name whose (HTML-decoded,
 \* pre-rewrite) value some rule accepts; the emitted value is that value, or its re-serialisation
 \* when the position is a URL position, or a value the sanitiser is instructed to force
@@ -34,7 +41,7 @@ Justified(p, n, as, a) ==
            \/ Forced(p, n, a)
   \/ p.dataAttrs /\ IsData(a.k) /\ InSeq(a, as)
   \/ a.k = "style" /\ HasStyleRules(p, n) /\ \E i \in DOMAIN as : as[i].k = "style"
-  \/ Forced(p, n, a) /\ ~\E i \in DOMAIN as : as[i].k = a.k      \* added by the sanitiser
+  \/ Forced(p, n, a) /\ SanitiserMade(a)                          \* added by the sanitiser
 
 I02(p, n, as, res) == \A i \in DOMAIN res : Justified(p, n, as, res[i])
 
